@@ -753,12 +753,57 @@ def gen_conversion(repo, timedelta):
             if term is None:
                 raise T.Untranslatable(f"{func}({src_py}): unsupported conversion `{body[0]}`", node, m.path)
             lines.append(f"  | .{dest}, .{src}, x => {term}")
+    # the datetime side: same shape; the field copies keep tzinfo and fold
+    FAMD = {"bt.DateTime": "bt", "dt.datetime": "dt", "ht.datetime": "ht"}
+    tabled = None
+    for n in m.tree.body:
+        tgt = n.target if isinstance(n, ast.AnnAssign) else (n.targets[0] if isinstance(n, ast.Assign) else None)
+        if isinstance(tgt, ast.Name) and tgt.id == "_CONVERT_DATETIME_FOR_TYPE" and isinstance(n.value, ast.Dict):
+            tabled = {ast.unparse(k): ast.unparse(v) for k, v in zip(n.value.keys, n.value.values)}
+    if tabled is None or set(tabled) != set(FAMD):
+        raise T.Untranslatable(f"_CONVERT_DATETIME_FOR_TYPE: {tabled}", where=m.path)
+    topd = m.find_func(None, "convert_datetime")
+    tbd = [ast.unparse(st) for st in topd.body if not (isinstance(st, ast.Expr) and isinstance(st.value, ast.Constant))]
+    if tbd != ["convert_func = _CONVERT_DATETIME_FOR_TYPE.get(requested_type)", "if convert_func is None:\n    raise invalid_requested_type('datetime', requested_type)",
+               "return cast(TDateTime, convert_func(value))"]:
+        raise T.Untranslatable("convert_datetime is not the expected statement list:\n" + "\n".join(tbd), topd, m.path)
+    FIELDS = "value.year, value.month, value.day, value.hour, value.minute, value.second, value.microsecond"
+    ROUTED = {"return bt.DateTime(value)": "bt_ctor", "return value._to_datetime_datetime()": "to_dt", "return value._to_hightime_datetime()": "to_ht",
+              f"return dt.datetime({FIELDS}, value.tzinfo, fold=value.fold)": "dt_fields", f"return ht.datetime({FIELDS}, tzinfo=value.tzinfo, fold=value.fold)": "ht_fields"}
+    LEGD = {("bt", "dt", "bt_ctor"): "Model.Mixed.btDtOfDt x", ("bt", "ht", "bt_ctor"): "Model.Mixed.btDtOfHt x", ("dt", "bt", "to_dt"): "Model.Mixed.dtOfBtDt x",
+            ("ht", "bt", "to_ht"): "Model.Mixed.htOfBtDt x", ("dt", "ht", "dt_fields"): "Except.ok (Model.Mixed.dtAbsOfHt x)", ("ht", "dt", "ht_fields"): "Except.ok (Model.Mixed.htAbsOfDt x)"}
+    linesd = []
+    for dest_py, func in tabled.items():
+        dest = FAMD[dest_py]
+        r = regs.get(func, {})
+        if set(r) != set(FAMD):
+            raise T.Untranslatable(f"{func}: registered for {sorted(r)}, expected the three datetime families", where=m.path)
+        base = m.find_func(None, func)
+        bb = [ast.unparse(st) for st in base.body if not (isinstance(st, ast.Expr) and isinstance(st.value, ast.Constant))]
+        if bb != ["raise invalid_arg_type('value', 'datetime', value)"]:
+            raise T.Untranslatable(f"{func}: the fallback is not the TypeError", base, m.path)
+        for src_py, (body, node) in r.items():
+            src = FAMD[src_py]
+            if len(body) != 1:
+                raise T.Untranslatable(f"{func}({src_py}): {body}", node, m.path)
+            if dest == src:
+                term = "Except.ok x" if body[0] == "return value" else None
+            else:
+                term = LEGD.get((dest, src, ROUTED.get(body[0])))
+            if term is None:
+                raise T.Untranslatable(f"{func}({src_py}): unsupported conversion `{body[0]}`", node, m.path)
+            linesd.append(f"  | .{dest}, .{src}, x => {term}")
+    m.extra_imports = ["NiVerif.Model.Conv", "NiVerif.Model.Mixed"]
     m.out.append("/-- the three timedelta families -/")
     m.out.append("inductive Fam3 where | bt | dt | ht\n  deriving DecidableEq, Repr")
     m.out.append("")
     m.out.append("/-- generated from `convert_timedelta`, `_CONVERT_TIMEDELTA_FOR_TYPE` and the registered overloads of the three `_convert_to_*_timedelta`: (destination, source, value) -/")
     m.out.append("@[pygen] def convert_timedelta : Fam3 → Fam3 → Int → Except PyErr Int")
     m.out += lines
+    m.out.append("")
+    m.out.append("/-- generated from `convert_datetime`, `_CONVERT_DATETIME_FOR_TYPE` and the registered overloads of the three converters; values are instants (UTC): (destination, source, value) -/")
+    m.out.append("@[pygen] def convert_datetime : Fam3 → Fam3 → Int → Except PyErr Int")
+    m.out += linesd
     m.out.append("")
     return m
 
